@@ -11,6 +11,9 @@ from .interp import Interp
 from .sym import (PathBudget, PathCtx, PathInfeasible, PyExc, SBool, SInt, Unsupported, tb, tz, wrap)
 
 REGISTRY: dict[str, "FuncSpec"] = {}
+import os as _os
+
+_PROGRESS = bool(_os.environ.get("PYVC_PROGRESS"))
 
 
 class FuncSpec:
@@ -21,6 +24,7 @@ class FuncSpec:
     props: tuple = ()
     doc: str = ""
     max_paths = 4000
+    max_seconds = 600
     timeout_ms = 20000
     max_decisions = 400
 
@@ -209,7 +213,7 @@ def _add(res: RunResult, ob, trace, cfg):
         a.unknown += 1
 
 
-def verify(spec: FuncSpec, cfg: dict, tier="quick") -> RunResult:
+def verify(spec: FuncSpec, cfg: dict, tier="quick", exclude=()) -> RunResult:
     res = RunResult(spec, cfg)
     t0 = time.time()
     work = [[]]
@@ -220,15 +224,27 @@ def verify(spec: FuncSpec, cfg: dict, tier="quick") -> RunResult:
             res.undecided.append(f"path budget {spec.max_paths} exhausted")
             break
         prefix = work.pop()
+        if _PROGRESS and res.paths % 20 == 0:
+            print(f"[progress] {spec.name} {cfg} paths={res.paths} pending={len(work)} t={time.time()-t0:.1f}s solver={res.solver_s:.1f}", flush=True)
+        if time.time() - t0 > spec.max_seconds * (1 if tier == "quick" else 6):
+            res.undecided.append(f"time budget {spec.max_seconds}s exhausted after {res.paths} paths")
+            break
         ctx = PathCtx(prefix, timeout_ms=timeout_ms, max_decisions=spec.max_decisions)
         sym.set_cur(ctx)
         outcome = None
         try:
             interp = Interp(ctx)
-            c = Case(ctx, interp, cfg)
+            c = Case(ctx, interp, dict(cfg, _tier=tier))
             ctx.case = c
             spec.install(c)
             args, kwargs = spec.setup(c)
+            for expr in exclude:
+                # known-finding witness classes: look only for failures *outside* the recorded class
+                try:
+                    cls = eval(expr, {"__builtins__": {}}, dict(c.inputs))
+                except NameError:
+                    continue
+                ctx.assume(z3.Not(tb(cls)))
             if res.cover is None:
                 r, _ = ctx._check()
                 res.cover = (r == z3.sat)
@@ -261,6 +277,9 @@ def verify(spec: FuncSpec, cfg: dict, tier="quick") -> RunResult:
         except Unsupported as u:
             res.paths += 1
             res.undecided.append(f"unsupported: {u}")
+            import os
+            if os.environ.get("PYVC_DEBUG"):
+                traceback.print_exc()
         except PathBudget as u:
             res.paths += 1
             res.undecided.append(f"budget: {u}")
